@@ -109,6 +109,13 @@ struct Sess {
     /// work id of the last template that was verified (templates are re-verified only when the
     /// assembler produced a new one)
     last_work_id: Option<u64>,
+    /// per transaction id: the largest understatement (size, cycles) of the pool's ancestor
+    /// aggregates against the recomputation over its links seen in any dump since the pool's
+    /// snapshot tip became `understated_tip`, and whether the entry was in a tainted family (known
+    /// C11 causes) every time. The block assembler selects packages from some pool state since the
+    /// last tip change; every such state has been dumped.
+    understated: HashMap<ProposalShortId, (u64, u64, bool)>,
+    understated_tip: H,
 }
 
 fn id_hex(id: &ProposalShortId) -> String {
@@ -162,12 +169,12 @@ pub fn run(args: &Args) -> i32 {
     r.c12.require("tip_changes", 3);
     r.c12.require("reorgs", 1);
     r.c12.require("obs.readd_candidates", 1);
-    r.c12.require("obs.dep_user_pooled_while_pooled_spender_committed", 4);
-    r.c12.require("obs.race.submit_held_across_tip_change", 4);
+    r.c12.require("obs.dep_user_pooled_while_pooled_spender_committed", 6);
+    r.c12.require("obs.race.submit_held_across_tip_change", 6);
     r.c13.require("templates_verified", 5);
     r.c13.require("templates_with_txs", 1);
     r.c13.require("obs.late_fill.templates_after_uncle_or_proposal_update", 3);
-    r.c13.require("obs.cpfp.templates_at_cycle_limit", 2);
+    r.c13.require("obs.cpfp.templates_at_cycle_limit", 3);
     for rep in [&mut r.c11, &mut r.c12, &mut r.c13] {
         rep.assume("pool dump is taken through hook H5 under the pool's write lock; ckb-types is used to read transaction fields");
     }
@@ -306,6 +313,8 @@ fn run_session(rng: &mut Rng, si: u64, n_ops: u64, r: &mut Reports) {
         max_block_cycles,
         xrng,
         last_work_id: None,
+        understated: HashMap::new(),
+        understated_tip: genesis,
     };
     // warm-up: a few blocks so that rewards / windows exist
     for _ in 0..(3 + s.rng.below(3)) {
@@ -320,6 +329,7 @@ fn run_session(rng: &mut Rng, si: u64, n_ops: u64, r: &mut Reports) {
             2 => Some(0),
             9 => Some(1),
             16 => Some(2),
+            23 => Some(4),
             30 => Some(3),
             44 => Some(1),
             58 => Some(0),
@@ -333,7 +343,8 @@ fn run_session(rng: &mut Rng, si: u64, n_ops: u64, r: &mut Reports) {
                     s.op_race(r, reorg)
                 }
                 2 => s.op_dep_spend(r, false),
-                _ => s.op_dep_spend(r, true),
+                3 => s.op_dep_spend(r, true),
+                _ => s.op_pool_pressure(r),
             };
             if !ok {
                 break;
@@ -1095,6 +1106,7 @@ impl Sess {
             }
         }
         // I3: aggregates over the transitive closure of the pool's own links
+        let mut under_now: Vec<(ProposalShortId, u64, u64, bool)> = vec![];
         for e in &d.entries {
             let anc = transitive(&by, &e.id, true);
             let desc = transitive(&by, &e.id, false);
@@ -1116,6 +1128,12 @@ impl Sess {
             let cause = if late_parent { "@ancestor_inserted_after_pooled_descendant" } else if tainted_mid.contains(&e.id) { "@entry_committed_before_its_pooled_ancestor" } else { "" };
             if late_parent && (e.ancestors != wa || e.descendants != wd) {
                 r.c11.count("obs.aggregate_mismatch_with_late_parent");
+            }
+            // evidence for the C13 cause classification (see `understated`)
+            let (us, uc) = ((wa.1 as u64).saturating_sub(e.ancestors.1 as u64), wa.2.saturating_sub(e.ancestors.2));
+            if us > 0 || uc > 0 {
+                let known_cause = !cause.is_empty();
+                under_now.push((e.id.clone(), us, uc, known_cause));
             }
             if e.ancestors != wa {
                 r.c11.violation(&format!("aggregates.ancestors_differ_from_recomputation{cause}"), format!("{}: pool says (count,size,cycles,fee)={:?}, recomputed over its links {:?}", id_hex(&e.id), e.ancestors, wa), w(json!({"entry": id_hex(&e.id)})));
@@ -1169,6 +1187,19 @@ impl Sess {
         r.c11.distinct(vbase::fnv1a(format!("{shape:?}").as_bytes()));
         if d.entries.iter().any(|e| !e.parents.is_empty()) {
             r.c11.count("obs.dumps_with_links");
+        }
+        {
+            let tip_now = h(&d.snapshot_tip);
+            if tip_now != self.understated_tip {
+                self.understated.clear();
+                self.understated_tip = tip_now;
+            }
+            for (id, us, uc, known_cause) in under_now {
+                let slot = self.understated.entry(id).or_insert((0, 0, true));
+                slot.0 = slot.0.max(us);
+                slot.1 = slot.1.max(uc);
+                slot.2 &= known_cause;
+            }
         }
     }
 
@@ -1502,7 +1533,8 @@ impl Sess {
             r.c13.count("templates_with_proposals");
         }
         r.c13.distinct(vbase::fnv1a(format!("{:?}{}{}{}{}", tip, n_txs, n_props, n_uncles, block.epoch().index()).as_bytes()));
-        let wit = self.witness(json!({"template_parent": vbase::hex(&tip), "txs": n_txs, "proposals": n_props, "uncles": n_uncles}));
+        let wit = self.witness(json!({"template_parent": vbase::hex(&tip), "txs": n_txs, "proposals": n_props, "uncles": n_uncles,
+            "template_txs": block.transactions().iter().skip(1).map(|t| format!("{}{}", hx(&h(&t.hash())), if pre.entries.iter().any(|e| e.tx.hash() == t.hash()) { "" } else { " (not pooled now)" })).collect::<Vec<_>>()}));
         let tpl_cycles;
         match full_verify_noncommit(&self.n.shared, &block) {
             Ok(cycles) => {
@@ -1533,23 +1565,25 @@ impl Sess {
                     let by: HashMap<ProposalShortId, &VerifEntry> = pre.entries.iter().map(|x| (x.id.clone(), x)).collect();
                     let mut understated: u64 = 0;
                     let mut tpl_cycles_sum: u64 = 0;
+                    let same_tip = self.understated_tip == tip;
                     for tx in block.transactions().iter().skip(1) {
-                        let Some(en) = by.get(&tx.proposal_short_id()) else { continue };
-                        tpl_cycles_sum += en.cycles;
-                        let anc = transitive(&by, &en.id, true);
-                        let (mut sz, mut cy) = (en.size as u64, en.cycles);
-                        for a in &anc {
-                            if let Some(o) = by.get(a) {
-                                sz += o.size as u64;
-                                cy += o.cycles;
+                        let id = tx.proposal_short_id();
+                        match by.get(&id) {
+                            Some(en) => tpl_cycles_sum += en.cycles,
+                            // no longer pooled (evicted / replaced since the template was filled)
+                            None => tpl_cycles_sum += UNIT_CYCLES.load(Ordering::Relaxed).max(1) * tx.inputs().len() as u64,
+                        }
+                        if !same_tip {
+                            continue;
+                        }
+                        if let Some((us, uc, known_cause)) = self.understated.get(&id) {
+                            let u = if over_bytes { *us } else { *uc };
+                            if u > 0 {
+                                all_tainted &= *known_cause;
+                                understated_list.push(format!("{}: pool understated its ancestors by size {} / cycles {} in a dump since this tip ({})", id_hex(&id), us, uc, if by.contains_key(&id) { "still pooled" } else { "no longer pooled" }));
                             }
+                            understated += u;
                         }
-                        let u = if over_bytes { sz.saturating_sub(en.ancestors.1 as u64) } else { cy.saturating_sub(en.ancestors.2) };
-                        if u > 0 {
-                            all_tainted &= self.tainted.contains(&en.id) || self.tainted_mid.contains(&en.id);
-                            understated_list.push(format!("{}: pool ancestors (count,size,cycles,fee)={:?}, over its links: count={} size={} cycles={}", id_hex(&en.id), en.ancestors, anc.len() + 1, sz, cy));
-                        }
-                        understated += u;
                     }
                     let excess = if over_bytes {
                         (block.data().serialized_size_without_uncle_proposals() as u64).saturating_sub(bytes_limit)
@@ -1707,6 +1741,24 @@ impl Sess {
             }
         }
         Ok(self.in_proposed_set(txs))
+    }
+
+    /// C11: submissions until the pool's size limit evicts (or refuses) something; only in
+    /// sessions whose limit is reachable.
+    fn op_pool_pressure(&mut self, r: &mut Reports) -> bool {
+        if self.pcfg.max_pool_bytes > 100_000 {
+            return self.op_submit(r, false);
+        }
+        let before = r.c11.counter("obs.evicted_by_size");
+        for _ in 0..45 {
+            if !self.op_submit(r, false) {
+                return false;
+            }
+            if r.c11.counter("obs.evicted_by_size") > before {
+                break;
+            }
+        }
+        true
     }
 
     fn op_flavor_scenario(&mut self, r: &mut Reports) -> bool {
@@ -1877,7 +1929,18 @@ impl Sess {
             .name("verif-race-submit".into())
             .spawn(move || ctl.submit_local_tx(t_clone))
             .expect("spawn");
-        let held = hooks::wait_gate_held(Duration::from_secs(15));
+        // wait until T is parked at the gate, or its thread has ended (refused before that step)
+        let held = {
+            let t0 = Instant::now();
+            loop {
+                if hooks::wait_gate_held(Duration::from_millis(5)) {
+                    break true;
+                }
+                if th.is_finished() || t0.elapsed() > Duration::from_secs(20) {
+                    break hooks::gate_is_holding();
+                }
+            }
+        };
         if !held {
             // T did not get as far as the insertion step (refused earlier): no race to judge
             hooks::release_gate();
